@@ -19,6 +19,25 @@ def install_darwin():
     socket.AddressFamily = enum.IntEnum('AddressFamily', {v: k for k, v in DARWIN_AF.items()})
     socket.SocketKind = enum.IntEnum('SocketKind', {v: k for k, v in DARWIN_SK.items()})
     socket.SOL_SOCKET = DARWIN_SOL
+    # the modules' own constants follow the tables, as on a Darwin host: a name Darwin does not define does not exist there
+    # (socket.SOCK_NONBLOCK, AF_PACKET, errno.ERFKILL, signal.SIGPWR, …), a name it defines has Darwin's number
+    import _socket
+    for mods, prefix, table, enum_cls in (((socket, _socket), 'SOCK_', DARWIN_SK, socket.SocketKind),
+                                          ((socket, _socket), 'AF_', DARWIN_AF, socket.AddressFamily),
+                                          ((signal,), 'SIG', DARWIN_SIGNALS, signal.Signals),
+                                          ((errno,), 'E', DARWIN_ERRNO, None)):
+        by_name = {v: k for k, v in table.items()}
+        for mod in mods:
+            for name in list(vars(mod)):
+                if not name.startswith(prefix) or name != name.upper() or not isinstance(getattr(mod, name), int):
+                    continue
+                if prefix == 'SIG' and name.startswith('SIG_'):
+                    continue
+                if name in by_name:
+                    member = enum_cls[name] if (enum_cls is not None and mod is not _socket) else by_name[name]
+                    setattr(mod, name, member)
+                else:
+                    delattr(mod, name)
 
 
 def install_scramble():
